@@ -24,6 +24,7 @@ type Env struct {
 	inOld bool
 	hint  types.Type // expected type for untyped constants in conditional branches
 	newBase string   // allocation counter value at the start of the call: refs >= newBase are new
+	prev  *State      // state at the head of the current loop iteration (for prev())
 }
 
 func (e *Env) with(name string, v *Value) *Env {
@@ -132,6 +133,10 @@ func (x *Exec) resolveType(name string, pkg *types.Package) (types.Type, string)
 	}
 	x.limit("cannot resolve type %q", name)
 	return nil, ""
+}
+
+func (x *Exec) blockType() types.Type {
+	return x.P.TPkgs["bcl"].Scope().Lookup("Block").Type()
 }
 
 func (x *Exec) valType() types.Type {
@@ -291,6 +296,18 @@ func (x *Exec) eval(env *Env, e CExpr) *Value {
 			return boolV(app("v_bool", t))
 		case "float64":
 			return &Value{T: app("v_flt", t), Typ: types.Typ[types.Float64]}
+		}
+		if !isValIface(v.Typ) {
+			tt, _ := x.resolveType(e.Type, env.pkg)
+			if tt != nil {
+				pf := "ipayload_" + sanitize(elemKey(tt))
+				x.Reg.Add(pf, fmt.Sprintf("(declare-fun %s (Int) %s)", pf, x.Sorts.SortOf(tt)))
+				return &Value{T: app(pf, t), Typ: tt}
+			}
+		}
+		if e.Type == "Block" {
+			x.Sorts.SortOf(x.blockType())
+			return &Value{T: app("mk_S_Block", app("vb_type", t), app("vb_name", t), app("vb_fields", t)), Typ: x.blockType()}
 		}
 		x.limit("unsupported type assertion .(%s) in contract", e.Type)
 	}
@@ -569,7 +586,22 @@ func (x *Exec) evalBin(env *Env, e *CBin) *Value {
 			}
 			return boolV(x.evalBool(env, e.Y))
 		}
-		return boolV(implies(x.term(a), x.evalBool(env, e.Y)))
+		// If the consequent mentions a local that does not exist on this path, the
+		// clause can only hold here by the antecedent being false: demand that.
+		var res *Value
+		func() {
+			defer func() {
+				if r := recover(); r != nil {
+					if tl, ok := r.(toolLimit); ok && strings.HasPrefix(tl.msg, "unknown identifier") {
+						res = boolV(not(x.term(a)))
+						return
+					}
+					panic(r)
+				}
+			}()
+			res = boolV(implies(x.term(a), x.evalBool(env, e.Y)))
+		}()
+		return res
 	case "<==>":
 		return boolV(eq(x.evalBool(env, e.X), x.evalBool(env, e.Y)))
 	}
@@ -852,6 +884,14 @@ func (x *Exec) evalCall(env *Env, c *CCall) *Value {
 		n := *env
 		n.inOld = true
 		return x.eval(&n, c.Args[0])
+	case "prev":
+		if env.prev == nil {
+			x.limit("prev() outside a loop step clause")
+		}
+		n := *env
+		n.inOld = true
+		n.old = env.prev
+		return x.eval(&n, c.Args[0])
 	case "len":
 		a := arg(0)
 		if a.Typ == nil {
@@ -919,6 +959,9 @@ func (x *Exec) evalCall(env *Env, c *CCall) *Value {
 		return &Value{T: app(c.Fn, x.termAs(a, at)), Typ: x.valType()}
 	case "VNil":
 		return &Value{T: "VNil", Typ: x.valType()}
+	case "VBlockOf":
+		a := x.term(arg(0))
+		return &Value{T: app("VBlock", app("S_Block_Type", a), app("S_Block_Name", a), app("S_Block_Fields", a)), Typ: x.valType()}
 	case "ite":
 		cnd, a, b := arg(0), arg(1), arg(2)
 		t := a.Typ
@@ -955,6 +998,25 @@ func (x *Exec) evalCall(env *Env, c *CCall) *Value {
 			x.limit("fn(%q): no such function", name)
 		}
 		return &Value{T: fmt.Sprint(x.fnID(f)), Sort: "Int"}
+	case "elems":
+		// the backing array of a slice as a value (index 0 = first element of the slice when offset is 0)
+		a := arg(0)
+		sl, ok := a.Typ.Underlying().(*types.Slice)
+		if !ok {
+			x.limit("elems() of a non-slice")
+		}
+		arr, off, _, _ := x.sliceParts(x.term(a))
+		if off != "0" {
+			x.limit("elems() of a slice with a symbolic offset")
+		}
+		hn, hs := x.elemHeapName(sl.Elem())
+		return &Value{T: app("select", x.heapIn(x.stateFor(env), hn, hs), arr), Typ: types.NewArray(sl.Elem(), 1<<30)}
+	case "istype":
+		// dynamic type test on a (non-empty) interface value: istype(v, "T")
+		a := arg(0)
+		tn := c.Args[1].(*CLit).Val
+		t, _ := x.resolveType(tn, env.pkg)
+		return boolV(and(not(eq(x.term(a), "0")), eq(app("dyntype", x.term(a)), fmt.Sprint(x.typeID(t)))))
 	case "isnew":
 		// the object / backing array / map was allocated during this call
 		a := arg(0)
@@ -992,6 +1054,17 @@ func (x *Exec) evalCall(env *Env, c *CCall) *Value {
 			return &Value{T: a.T, Typ: t}
 		}
 		return x.convert(env.st, a, t, nil)
+	}
+	// macros: expanded in the current state
+	if mc, ok := x.C.Macros[c.Fn]; ok {
+		if len(c.Args) != len(mc.Params) {
+			x.limit("macro %s: %d args, want %d", mc.Name, len(c.Args), len(mc.Params))
+		}
+		n := env
+		for i, p := range mc.Params {
+			n = n.with(p.Name, x.eval(env, c.Args[i]))
+		}
+		return x.eval(n, mc.Body)
 	}
 	// spec functions
 	if pf, ok := x.C.Pures[c.Fn]; ok {
@@ -1122,5 +1195,55 @@ func (x *Exec) lemmaFormula(lm *Lemma) string {
 	if len(binders) == 0 {
 		return body
 	}
+	names := make([]string, len(binders))
+	for i, b := range binders {
+		names[i] = strings.Fields(strings.Trim(b, "()"))[0]
+	}
+	if pat := autoPattern(and(post...), names); pat != "" {
+		return fmt.Sprintf("(forall (%s) (! %s :pattern (%s)))", strings.Join(binders, " "), body, pat)
+	}
+	return fmt.Sprintf("(forall (%s) %s)", strings.Join(binders, " "), body)
+}
+
+// lemmaProofGoal: the statement to prove. With `by induction on m` the induction
+// hypothesis (the lemma for m-1, same other parameters) is available when m > 0... 
+// more precisely whenever the instance for m-1 satisfies the lemma's requires.
+func (x *Exec) lemmaProofGoal(lm *Lemma) string {
+	if lm.Induct == "" {
+		return x.lemmaFormula(lm)
+	}
+	env := &Env{x: x, st: &State{cells: map[*Cell]*Value{}, heaps: map[string]string{}, hsort: map[string]string{}, ghost: map[string]*Value{}}, vars: map[string]*Value{}, pkg: x.P.TPkgs["bcl"]}
+	env.old = env.st
+	var binders, guards []string
+	for _, p := range lm.Params {
+		t, s := x.resolveType(p.Type, nil)
+		pn := "l_" + lm.Name + "_" + p.Name
+		binders = append(binders, fmt.Sprintf("(%s %s)", pn, s))
+		env.vars[p.Name] = &Value{T: pn, Typ: t, Sort: s}
+		if t != nil {
+			if g := x.typeInv(pn, t); g != "true" {
+				guards = append(guards, g)
+			}
+		}
+	}
+	iv, ok := env.vars[lm.Induct]
+	if !ok {
+		x.limit("lemma %s: induction variable %s is not a parameter", lm.Name, lm.Induct)
+	}
+	build := func(e *Env) (string, string) {
+		var pre, post []string
+		for _, r := range lm.Requires {
+			pre = append(pre, x.evalBool(e, r))
+		}
+		for _, en := range lm.Ensures {
+			post = append(post, x.evalBool(e, en))
+		}
+		return and(pre...), and(post...)
+	}
+	pre, post := build(env)
+	prevEnv := env.with(lm.Induct, &Value{T: app("-", iv.T, "1"), Typ: iv.Typ, Sort: iv.Sort})
+	ppre, ppost := build(prevEnv)
+	ih := implies(ppre, ppost)
+	body := implies(and(append(guards, pre, ih)...), post)
 	return fmt.Sprintf("(forall (%s) %s)", strings.Join(binders, " "), body)
 }
